@@ -10,6 +10,7 @@ mod c06;
 mod c07;
 mod c08;
 mod c09;
+mod c14;
 mod c16;
 mod c17;
 mod c18;
@@ -55,6 +56,7 @@ fn main() {
         "C07" => c07::run(tier, replay),
         "C08" => c08::run(tier, replay),
         "C09" => c09::run(tier, replay),
+        "C14" => c14::run(tier, replay),
         "C16" => c16::run(tier, replay),
         "C17" => c17::run(tier, replay),
         "C18" => c18::run_check(tier, replay),
